@@ -2,11 +2,13 @@
    Property theorems only: each is closed by [exact] of a lemma from Proofs/, followed by Print Assumptions.
    Both sides are regenerated on every run: Gen/Kernels.v from the Cython kernels of
    MTfit/convert/cmoment_tensor_conversion.pyx and MTfit/probability/cprobability.pyx (through tools/py2coq/pyx.py),
-   Gen/Convert.v, Gen/Polarity.v, Gen/Ratio.v from the Python routines. *)
+   Gen/KernelsMC.v from the acceptance kernels of MTfit/algorithms/cmarkov_chain_monte_carlo.pyx,
+   Gen/Convert.v, Gen/Polarity.v, Gen/Ratio.v, Gen/MCMC.v from the Python routines. *)
 From Coq Require Import Reals.
-From MTV.Gen Require Import Convert Polarity Ratio Kernels.
+From MTV.Lib Require Import State.
+From MTV.Gen Require Import Convert Polarity Ratio Kernels MCMC KernelsMC.
 From MTV.Model Require Joint.
-From MTV.Proofs Require Import C20_kernels C20_likelihood.
+From MTV.Proofs Require Import C20_kernels C20_likelihood C20_mcmc.
 Open Scope R_scope.
 
 Theorem C20_hudson_uv_kernel : forall tau k, ctk_uv k tau = tk_uv tau k.
@@ -65,3 +67,70 @@ Theorem C20_scale_estimate_kernel : forall x y mux muy psx psy,
   (py_scale_mu (Rabs (x / y)) (Rabs mux) (Rabs muy) psx psy, py_scale_s (Rabs (x / y)) (Rabs mux) (Rabs muy) psx psy).
 Proof. exact estimate_scale_equiv. Qed.
 Print Assumptions C20_scale_estimate_kernel.
+
+(* ---- acceptance kernels of cmarkov_chain_monte_carlo.pyx (Gen/KernelsMC.v) against markov_chain_monte_carlo.py (Gen/MCMC.v) *)
+(* the compiled transition ratio is the ratio of the Python proposal densities (any erf with Phi = (1 + erf(./sqrt2))/2) *)
+Theorem C20_transition_ratio_kernel : forall erf Phi, (forall t, Phi t = (1 + erf (t / sqrt 2)) / 2) ->
+  forall g d h s g0 gs d0 ds h0 hs s0 ss k k0,
+  ~ (g = 0 /\ d = 0 /\ g0 = 0 /\ d0 = 0) -> gs <> 0 -> ds <> 0 -> hs <> 0 -> ss <> 0 ->
+  Nhs Phi h hs s ss <> 0 -> Nhs Phi h0 hs s0 ss <> 0 -> Ngd Phi g gs d ds <> 0 -> Ngd Phi g0 gs d0 ds <> 0 ->
+  gaussian_transition_ratio erf g d h s g0 gs d0 ds h0 hs s0 ss =
+  q_mt Phi (mkState g0 d0 k0 h0 s0) (mkState g d k h s) gs ds hs ss / q_mt Phi (mkState g d k h s) (mkState g0 d0 k0 h0 s0) gs ds hs ss.
+Proof. exact transition_ratio_mt. Qed.
+Print Assumptions C20_transition_ratio_kernel.
+
+Theorem C20_transition_ratio_kernel_double_couple : forall erf Phi, (forall t, Phi t = (1 + erf (t / sqrt 2)) / 2) ->
+  forall h s h0 hs s0 ss k k0, hs <> 0 -> ss <> 0 -> Nhs Phi h hs s ss <> 0 -> Nhs Phi h0 hs s0 ss <> 0 ->
+  gaussian_transition_ratio erf 0 0 h s 0 hs 0 ss h0 hs s0 ss =
+  q_dc Phi (mkState 0 0 k0 h0 s0) (mkState 0 0 k h s) hs ss / q_dc Phi (mkState 0 0 k h s) (mkState 0 0 k0 h0 s0) hs ss.
+Proof. exact transition_ratio_dc. Qed.
+Print Assumptions C20_transition_ratio_kernel_double_couple.
+
+(* the balancing densities and the uniform-prior ratio *)
+Theorem C20_balancing_density_kernel : forall x sg sd pn,
+  gaussian_jump_prob (s_gamma x) (s_delta x) sg sd pn = qb_gauss x sg sd pn /\ flat_jump_prob = qb_flat.
+Proof. intros. split; [apply jump_prob_qb|exact flat_jump_prob_qb]. Qed.
+Print Assumptions C20_balancing_density_kernel.
+
+Theorem C20_uniform_prior_ratio_kernel : forall betapdf ND,
+  (forall u, betapdf u (1149 / 200) (1149 / 200) * (11045219407152909 / 10 ^ 16) = ND * Rpower (u * (1 - u)) (949 / 200)) ->
+  forall g d g0 d0, py_prior betapdf g0 d0 <> 0 -> uniform_prior_ratio ND g d g0 d0 = py_prior betapdf g d / py_prior betapdf g0 d0.
+Proof. exact uniform_prior_ratio_is_prior_ratio. Qed.
+Print Assumptions C20_uniform_prior_ratio_kernel.
+
+(* the acceptance kernel, its three function pointers as parameters: which formula is taken in which case *)
+Theorem C20_acceptance_kernel_cases : forall tr pr jp g d h s g0 gs d0 ds h0 hs s0 ss lp lp0 jump qg qd sg sd pn pdc,
+  (jump <= 0 \/ ~ (g = 0 /\ d = 0) /\ ~ (g0 = 0 /\ d0 = 0) ->
+   acceptance tr pr jp g d h s g0 gs d0 ds h0 hs s0 ss lp lp0 jump qg qd sg sd pn pdc =
+   Rmin 1 (exp (lp - lp0) * tr g d h s g0 gs d0 ds h0 hs s0 ss * pr g d g0 d0)) /\
+  (0 < jump -> acceptance tr pr jp 0 0 h s g0 gs d0 ds h0 hs s0 ss lp lp0 jump qg qd sg sd pn pdc =
+   Rmin 1 (exp (lp - lp0) * pr 0 0 g0 d0 * jp qg qd sg sd pn * (pdc / (1 - pdc)))) /\
+  (0 < jump -> ~ (g = 0 /\ d = 0) -> acceptance tr pr jp g d h s 0 gs 0 ds h0 hs s0 ss lp lp0 jump qg qd sg sd pn pdc =
+   Rmin 1 (exp (lp - lp0) * pr g d 0 0 / jp qg qd sg sd pn * ((1 - pdc) / pdc))).
+Proof.
+  intros. split; [|split].
+  - apply acceptance_shift.
+  - apply acceptance_jump_down.
+  - apply acceptance_jump_up.
+Qed.
+Print Assumptions C20_acceptance_kernel_cases.
+
+(* composed: the compiled shift acceptance of a full-tensor chain with the uniform prior IS the Python Metropolis-Hastings acceptance *)
+Theorem C20_shift_acceptance_kernel : forall erf Phi, (forall t, Phi t = (1 + erf (t / sqrt 2)) / 2) ->
+  forall betapdf ND, (forall u, betapdf u (1149 / 200) (1149 / 200) * (11045219407152909 / 10 ^ 16) = ND * Rpower (u * (1 - u)) (949 / 200)) ->
+  forall jp g d h s g0 gs d0 ds h0 hs s0 ss k k0 lp lp0 jump qg qd sg sd pn pdc,
+  let x := mkState g d k h s in let x0 := mkState g0 d0 k0 h0 s0 in
+  let q := fun a b => q_mt Phi a b gs ds hs ss in
+  let prior := fun st => py_prior betapdf (s_gamma st) (s_delta st) in
+  jump <= 0 -> ~ (g = 0 /\ d = 0 /\ g0 = 0 /\ d0 = 0) -> gs <> 0 -> ds <> 0 -> hs <> 0 -> ss <> 0 ->
+  Nhs Phi h hs s ss <> 0 -> Nhs Phi h0 hs s0 ss <> 0 -> Ngd Phi g gs d ds <> 0 -> Ngd Phi g0 gs d0 ds <> 0 ->
+  0 < q x x0 * prior x0 ->
+  acceptance (gaussian_transition_ratio erf) (uniform_prior_ratio ND) jp g d h s g0 gs d0 ds h0 hs s0 ss lp lp0 jump qg qd sg sd pn pdc =
+  mh_acc q prior x lp x0 lp0.
+Proof. exact acceptance_shift_uniform_mt. Qed.
+Print Assumptions C20_shift_acceptance_kernel.
+
+(* with the flat prior the compiled prior ratio is 1 also across a model jump, where the Python priors give 3/pi^2: known finding *)
+Theorem C20_flat_prior_ratio_on_jumps_refuted : forall betapdf, flat_prior_ratio <> flat_prior_mt betapdf / 1.
+Proof. exact flat_prior_ratio_on_jumps_refuted. Qed.
+Print Assumptions C20_flat_prior_ratio_on_jumps_refuted.
